@@ -94,18 +94,19 @@ def c12(tier, seed):
 
 def c13(tier, seed):
     if tier == 'quick':
-        runs = [Run('e1_bfs', 'asan', ['api', '2']), Run('e2_pairs', 'plain', [])]
+        runs = [Run('e1_bfs', 'asan', ['api', '2']), Run('e2_pairs', 'plain', []), Run('e2_long', 'asan', [])]
     else:
         runs = [Run('e1_bfs', 'asan', ['api', '2']), Run('e1_bfs', 'plain', ['api', '3']), Run('e1_bfs', 'dbg', ['crypt']), Run('e1_bfs', 'dbg', ['api', '2'])]
         runs += [Run('e1_bfs', m, ['api', '2'], label='e1_bfs[%s] api 2 (compiler matrix)' % m) for m in ('gcc-O0', 'gcc-O3', 'gcc-Os', 'clang-O0', 'clang-O2', 'clang-O3')]
-        runs += [Run('e2_pairs', 'plain', []), Run('e2_pairs', 'asan', ['--tier', 'quick'], label='e2_pairs[asan] en+es')]
+        runs += [Run('e2_pairs', 'plain', []), Run('e2_pairs', 'asan', ['--tier', 'quick'], label='e2_pairs[asan] en+es'), Run('e2_long', 'asan', []), Run('e2_long', 'plain', [])]
     return check('C13', tier, seed, runs, keyfilter=pref('c13:', 'c10:', 'c12:', 'c14:', 'c18:', 'harness:'), extra_cov=e1_cov, assumptions=ASSUME_COMMON + [
         'e2_pairs: every ordered pair (A, B) of words of a language (quick: English and Spanish; thorough: the 8 sorted languages, 33.5 M pairs): a phrase ending in A is decoded, then a phrase beginning with B, whose result must be the reference seed whatever A was',
         'alphabet (closed, so the search reaches a fixpoint): create with 3 feature arguments, free, free(NULL), crypt with 2 passwords, store/load into an empty slot, encode/decode into an empty slot (en auto, ko coin 2047 explicit, zh_s auto), enable_features {0,1,7}, re-injection of two dependency tables (B: different random source and clock, libc time/malloc/free), arming an allocation fault; 2 seed slots (thorough: 3)',
-        'state key = library writable sections + raw bytes of every live seed block + environment; a change that introduces hidden state only grows the state space'])
+        'state key = library writable sections + raw bytes of every live seed block + environment; a change that introduces hidden state only grows the state space',
+        'e2_long: what depends on how many calls were made or how many seeds are alive is outside the closed alphabet; it is enumerated along one canonical history: every live count 0..300 (four release orders) and every call count up to 70 000 (thorough 500 000) of each of six operations, model and ledger compared at every step'])
 
 def c15(tier, seed):
-    runs = [Run('e1_bfs', 'asan', ['api', '2']), Run('e2_fault', 'asan', []), Run('e1_bfs', 'asan', ['inject'])]
+    runs = [Run('e1_bfs', 'asan', ['api', '2']), Run('e2_fault', 'asan', []), Run('e1_bfs', 'asan', ['inject']), Run('e2_long', 'asan', [])]
     if tier == 'thorough':
         runs.append(Run('e1_bfs', 'plain', ['api', '3']))
     def cov(results):
@@ -252,7 +253,7 @@ def setup():
 
 SETUP_PROGS = [('e2_phrase', ['asan']), ('e2_gf', ['plain', 'asan']), ('e2_kdf', ['plain', 'asan']), ('e2_coin', ['asan']),
                ('e2_storage', ['asan']), ('e2_words', ['asan']), ('e2_prefix', ['asan']), ('e2_birthday', ['asan']), ('e2_maxlen', ['asan']),
-               ('e1_bfs', ['asan']), ('e2_crypt', ['asan']), ('e2_tape', ['asan']), ('e2_fault', ['asan']), ('e2_detect', ['asan']), ('e2_strings', ['asan', 'dbg']), ('e4_residue', ['gcc-O2', 'gcc-O0']), ('e3_sched', ['tsanrt']), ('e3_free', ['tsan']), ('e2_pairs', ['plain'])]
+               ('e1_bfs', ['asan']), ('e2_crypt', ['asan']), ('e2_tape', ['asan']), ('e2_fault', ['asan']), ('e2_detect', ['asan']), ('e2_strings', ['asan', 'dbg']), ('e4_residue', ['gcc-O2', 'gcc-O0']), ('e3_sched', ['tsanrt']), ('e3_free', ['tsan']), ('e2_pairs', ['plain']), ('e2_long', ['asan'])]
 ENGINES = [
  {'name': 'E3', 'path': 'harness/e3_sched.c, harness/e3_scripts.h, harness/e3_free.c', 'serves_properties': ['C20'],
   'kind_free_text': 'stateless model checking of thread interleavings: the library is compiled with -fsanitize=thread and linked against the harness own __tsan_* callbacks; real pthreads under a baton scheduler, scheduling point at every access to the library writable static data, DFS over choice prefixes with a visited-state cache (complete, no preemption bound needed on the unchanged tree), C11 atomic operations of the library are scheduling points and happens-before edges (vector-clock race oracle), spinning threads yield and an all-spinning state is a violation, a harness too large at access granularity is completed at synchronisation granularity; race, serial-equivalence and progress oracles; plus a separate free-running real-TSan pass'},
@@ -262,7 +263,7 @@ ENGINES = [
   'kind_free_text': 'configuration enumeration: the exhaustive E1/E2 scripts are executed against -fsigned-char and -funsigned-char builds of the library and their transcripts compared part by part'},
  {'name': 'E1', 'path': 'harness/e1_bfs.c', 'serves_properties': ['C10', 'C12', 'C13', 'C15', 'C18'],
   'kind_free_text': 'explicit-state breadth-first search over API histories on the real library to fixpoint; states rebuilt by replay, de-duplicated on library sections + live seed bytes + environment; every transition compared with the reference model, observation battery in every new state; allocation faults as a state component'},
- {'name': 'E2', 'path': 'harness/e2_*.c', 'serves_properties': ['C01', 'C02', 'C03', 'C04', 'C05', 'C06', 'C07', 'C08', 'C09', 'C11', 'C12', 'C14', 'C15', 'C17', 'C18'],
+ {'name': 'E2', 'path': 'harness/e2_*.c', 'serves_properties': ['C01', 'C02', 'C03', 'C04', 'C05', 'C06', 'C07', 'C08', 'C09', 'C11', 'C12', 'C13', 'C14', 'C15', 'C17', 'C18'],
   'kind_free_text': 'bounded exhaustive enumeration of finite input factors, every case executed on the real API (ASan+UBSan build) and compared with the reference model'},
 ]
 NA = {}
